@@ -64,13 +64,15 @@ Definition bm_cfg (p : params) : config :=
      c_areps := if p_ar p then [(0, ARFun (AStepsAttr 0)); (1, ARAttr 0)] else [];
      c_treps := []; c_tables := [] |}.
 
-Record bm := { b_w : world; b_d : dc; b_running : bool }.
+(* b_trace is a ghost field (never observed): the worlds at which the script called collect, in order *)
+Record bm := { b_w : world; b_d : dc; b_running : bool; b_trace : list world }.
 
 Fixpoint iter {A : Type} (n : nat) (f : A -> A) (x : A) : A :=
   match n with O => x | S k => iter k f (f x) end.
 Definition wstep (w : world) (o : op) : world := fst (world_step w o).
 Definition bm_collect (p : params) (m : bm) : bm :=
-  {| b_w := b_w m; b_d := fst (collect (bm_cfg p) (b_w m) (b_d m)); b_running := b_running m |}.
+  {| b_w := b_w m; b_d := fst (collect (bm_cfg p) (b_w m) (b_d m)); b_running := b_running m;
+     b_trace := b_trace m ++ [b_w m] |}.
 
 Definition inc_vals (w : world) : world :=       (* every agent: val += 1 *)
   with_agents w (map (fun a => {| a_id := a_id a; a_cls := a_cls a;
@@ -80,7 +82,7 @@ Definition inc_vals (w : world) : world :=       (* every agent: val += 1 *)
 Definition attr_t (w : world) : Z := match aget 2 (w_attrs w) with Some (MInt z) => z | _ => 0 end.
 Definition bm_mutate (m : bm) : bm :=
   {| b_w := inc_vals (wstep (b_w m) (SetAttr 2 (attr_t (b_w m) + w_steps (b_w m) + 1)));
-     b_d := b_d m; b_running := b_running m |}.
+     b_d := b_d m; b_running := b_running m; b_trace := b_trace m |}.
 (* for j in range(c): (mutate if j > 0); collect *)
 Fixpoint bm_collects (p : params) (c : nat) (m : bm) : bm :=
   match c with
@@ -92,7 +94,7 @@ Fixpoint bm_collects (p : params) (c : nat) (m : bm) : bm :=
 Definition bm_init (p : params) : bm :=
   let w0 := wstep (wstep world_init (SetAttr 1 (p_k p))) (SetAttr 2 0) in
   let w2 := iter (Z.to_nat (p_n p)) (fun w => wstep w (Create 0 [(0, p_k p)])) w0 in
-  bm_collects p (p_ic p) {| b_w := w2; b_d := dc_init (bm_cfg p); b_running := true |}.
+  bm_collects p (p_ic p) {| b_w := w2; b_d := dc_init (bm_cfg p); b_running := true; b_trace := [] |}.
 
 Definition bm_step (p : params) (m : bm) : bm :=   (* model.step(): the wrapper increments steps first *)
   let w1 := wstep (b_w m) Step in
@@ -105,7 +107,7 @@ Definition bm_step (p : params) (m : bm) : bm :=   (* model.step(): the wrapper 
            | Some s => if s <=? w_steps w4 then false else b_running m
            | None => b_running m
            end in
-  bm_collects p (p_sc p) {| b_w := w4; b_d := b_d m; b_running := r |}.
+  bm_collects p (p_sc p) {| b_w := w4; b_d := b_d m; b_running := r; b_trace := b_trace m |}.
 
 (* while model.running and model.steps < max_steps: model.step() *)
 Fixpoint run_loop (fuel : nat) (p : params) (max_steps : Z) (m : bm) : bm :=
@@ -161,10 +163,12 @@ Definition step_rows (cfg : config) (d : dc) (id it : Z) (k : kw) (step : Z) : l
                              r_agent := Some ad |}) ads
   end.
 
-Definition run_rows (max_steps period : Z) (r : run) : list brow :=
+(* the rows built from a finished model (everything after the while loop of _model_run_func) *)
+Definition rows_of (period : Z) (r : run) (m : bm) : list brow :=
   let '(id, it, k) := r in
-  let m := run_model k max_steps in
   flat_map (step_rows (bm_cfg (params_of k)) (b_d m) id it k) (report_steps period (b_d m)).
+Definition run_rows (max_steps period : Z) (r : run) : list brow :=
+  rows_of period r (run_model (snd r) max_steps).
 
 (* batch_run: the rows of the runs, concatenated in completion order (serial: list order) *)
 Definition batch_rows (max_steps period : Z) (runs : list run) : list brow :=
